@@ -17,7 +17,18 @@ ASSUMPTIONS = cc.ASSUMPTIONS_CORE
 
 
 def extra(tier, rng):
-    return []
+    """the families of the statement: a balanced tree of any size flushes once, a chain of n flushes n times,
+    siblings with chains of different lengths share flushes"""
+    import coregen
+    res = []
+    for d, f in ((1, 2), (1, 6), (2, 3), (3, 2), (2, 5), (3, 3), (4, 2)):
+        res.append({"cfg": {"kinds": {}}, "profile": "tree", "tops": [["value", coregen.balanced_tree(d, f)]]})
+    for n in (1, 2, 3, 5, 8, 13, 25, 40):
+        res.append({"cfg": {"kinds": {}}, "profile": "chain", "tops": [["call", coregen.dependent_chain(n)]]})
+    for _ in range(40 if tier == "quick" else 600):
+        ws = [rng.randint(1, 6) for _ in range(rng.randint(2, 5))]
+        res.append({"cfg": {"kinds": {}}, "profile": "staggered", "tops": [["value", coregen.staggered(ws)]]})
+    return res
 
 
 def plan(tier, seed):
